@@ -3,7 +3,7 @@
    extracted OCaml driver and (on a sample) inside Coq by vm_compute. *)
 From Coq Require Import String.
 From TlshV Require Import Model.Machine Model.Tokens Gen.Tables Model.MLength Model.MHexStr Model.MHash
-  Model.MPearson Model.MGenerate Model.MFloat Model.MFinalize Model.MCompare Model.MStream Model.MSerde Spec.SpecGenerate Spec.SpecDistance.
+  Model.MPearson Model.MGenerate Model.MFloat Model.MFinalize Model.MCompare Model.MStream Model.MSerde Model.MAgg Gen.AggKernels Spec.SpecGenerate Spec.SpecDistance.
 Open Scope string_scope.
 Open Scope list_scope.
 Open Scope N_scope.
@@ -477,8 +477,16 @@ Definition dispatch_gen (c : mcfg) (op : tok) (args : list tok) : option (list t
   else if is_sym op "agg" then
     match args with
     | [TN size; be; TN q1; TN q2; TN q3; TB bks] =>
-        if is_sym be "naive" then
-          Some (out_or (@aggregate_naive unit (c_dbg c) (size / 4) (un_le32 bks) q1 q2 q3) (fun b => [TB b]) (fun _ => bad))
+        let show (r : outcome unit (list N)) := out_or r (fun b => [TB b]) (fun _ => bad) in
+        (* "dispatch": whatever backend the build selects -- all are proved equal to the naive one for ordered quartiles *)
+        if is_sym be "naive" || is_sym be "dispatch" then
+          Some (show (aggregate_naive (c_dbg c) (size / 4) (un_le32 bks) q1 q2 q3))
+        else if is_sym be "sse2" then
+          Some (show (aggregate_x4 agg_sse2_prog agg_sse2_results 0 false (size / 4) (un_le32 bks) q1 q2 q3))
+        else if is_sym be "ssse3" then
+          Some (show (aggregate_x4 agg_ssse3_prog agg_ssse3_results 0 false (size / 4) (un_le32 bks) q1 q2 q3))
+        else if is_sym be "avx2" then
+          Some (show (aggregate_x8 agg_avx2_prog agg_avx2_results false (size / 4) (un_le32 bks) q1 q2 q3))
         else None
     | _ => Some bad
     end
@@ -534,6 +542,20 @@ Definition dispatch_cmp (c : mcfg) (op : tok) (args : list tok) : option (list t
                    TN (max_distance v CmpDefault); TN (max_distance v CmpNoLength);
                    TN (if list_eqb (hash_bytes ha) (hash_bytes hb) then 1 else 0); TN d1]
               | _, _, _, _, _, _, _, _, _ => bad
+              end)))
+        | None => Some bad
+        end
+    | _ => Some bad
+    end
+  else if is_sym op "race" then
+    match args with
+    | [vt; TN k; TB a; TB b; TB data] =>
+        match variant_of vt with
+        | Some v =>
+            Some (with_hash c v a (fun ha => with_hash c v b (fun hb =>
+              match @compare unit cc ha hb CmpDefault, @update unit (gcfg_of c) v (g_init (gcfg_of c) v) data with
+              | Ok d, Ok s => TN d :: show_gen_res (finalize_exec (gcfg_of c) v (options_of 0) s)
+              | _, _ => [S "PANIC"]
               end)))
         | None => Some bad
         end
